@@ -14,8 +14,8 @@ def gen(w, rng, tier):
     per = 5 if tier == "quick" else 30
     for t in w.withref():
         n = t["n"]
-        for i in range(n):
-            for j in range(n):
+        for (i, j) in w.pairs(t, rng):
+            if True:
                 ams = amounts(w.be, rng, 3)
                 picks = [rng.choice(ams) for _ in range(per)]
                 if rng.chance(1, 4):
